@@ -25,8 +25,18 @@ func noEndedRefs(sc *Script) {
 
 // replayOn runs a recorded trace on a fresh handler-level world in a bubble.
 func replayOn(t *testing.T, cfg Config, evs []TraceEvent, remap func(TraceEvent) (TraceEvent, bool)) (res ReplayResult, dump []string) {
+	return replayOnDriver(t, cfg, evs, remap, false)
+}
+
+// replayOnDriver: wire=true replays over the real stack (driver W).
+func replayOnDriver(t *testing.T, cfg Config, evs []TraceEvent, remap func(TraceEvent) (TraceEvent, bool), wire bool) (res ReplayResult, dump []string) {
 	synctest.Test(t, func(t *testing.T) {
-		w := NewHWorld(cfg)
+		var w Driver
+		if wire {
+			w = NewWWorld(cfg, WOpts{})
+		} else {
+			w = NewHWorld(cfg)
+		}
 		res = replayTrace(w, evs, remap)
 		dump = dumpStore(w.Store(), res.Insts, cfg)
 		w.Shutdown()
@@ -93,17 +103,17 @@ func firstDiff(a, b []string) string {
 }
 
 // C17: metamorphic relation between the flag-free run and the run under F.
-func flagCase(t *testing.T, sc Script, mask int, unknown bool) (viol string, nt bool, labels map[string]int, foreign bool) {
-	ex := RunH(t, sc, CaseOpts{Ex: exclusionsFromFindings()})
+func flagCase(t *testing.T, sc Script, mask int, unknown bool, wire bool) (viol string, nt bool, labels map[string]int, foreign bool) {
+	ex := RunH(t, sc, CaseOpts{Ex: exclusionsFromFindings(), Wire: wire})
 	labels = ex.Labels
 	if len(ex.Viol) > 0 {
 		return "", false, labels, true // the flag-free run itself is not in order: other checks decide that
 	}
 	evs := ex.Rec.ev
-	base, baseDump := replayOn(t, sc.Cfg, evs, nil)
+	base, baseDump := replayOnDriver(t, sc.Cfg, evs, nil, wire)
 	fcfg := sc.Cfg
 	fcfg.Flags = flagsFromMask(mask, unknown)
-	got, gotDump := replayOn(t, fcfg, evs, nil)
+	got, gotDump := replayOnDriver(t, fcfg, evs, nil, wire)
 	drop := map[int32]bool{}
 	for _, f := range fcfg.Flags {
 		if c, ok := flagClass[f]; ok {
@@ -156,8 +166,15 @@ type flagReplay struct {
 	Violation string   `json:"violation"`
 }
 
-func TestC17Flags(t *testing.T) {
-	col := NewCollector("C17", "H", genRule+"each script is run flag-free under the reference model, its concrete trace is replayed on a fresh flag-free server and on a fresh server with flag set F (singles, empty, full, random subsets, unknown names; thorough tier: all 1024 subsets round-robin); per connection and step the F-stream must equal the flag-free stream minus the classes F names, and the final server state must be equal; non-trivial = distinct (script, F) where >=3 of the ten classes occur flag-free and F removes >=1 message")
+func TestC17Flags(t *testing.T) { flagsTest(t, false) }
+func TestC17Wire(t *testing.T)  { flagsTest(t, true) }
+
+func flagsTest(t *testing.T, wire bool) {
+	part := "H"
+	if wire {
+		part = "W"
+	}
+	col := NewCollector("C17", part, genRule+"each script is run flag-free under the reference model, its concrete trace is replayed on a fresh flag-free server and on a fresh server with flag set F (singles, empty, full, random subsets, unknown names; thorough tier: all 1024 subsets round-robin); per connection and step the F-stream must equal the flag-free stream minus the classes F names, and the final server state must be equal; non-trivial = distinct (script, F) where >=3 of the ten classes occur flag-free and F removes >=1 message")
 	t.Cleanup(col.Write)
 	p := prof("c17", map[Op]int{OpJoin: 7, OpClose: 3, OpCustom: 8, OpPose: 10, OpTick: 10, OpCompAdd: 12, OpCompUpdate: 10, OpCompDel: 6, OpSub: 10, OpReceipt: 0})
 	if rp := os.Getenv("VERIF_REPLAY"); rp != "" {
@@ -165,7 +182,7 @@ func TestC17Flags(t *testing.T) {
 		if err := readJSON(rp, &fr); err != nil || len(fr.Script.Steps) == 0 {
 			t.Skipf("replay file not usable: %v", err)
 		}
-		v, _, labels, _ := flagCase(t, fr.Script, fr.Mask, fr.Unknown)
+		v, _, labels, _ := flagCase(t, fr.Script, fr.Mask, fr.Unknown, wire)
 		col.Case(fr.Script.Digest(), true, labels, func() any { return fr.Pretty })
 		if v != "" {
 			col.Violations++
@@ -196,7 +213,7 @@ func TestC17Flags(t *testing.T) {
 			unknown = uni(rt, "flag_unknown", 4) == 0
 		}
 		n++
-		v, nt, labels, foreign := flagCase(t, sc, mask, unknown)
+		v, nt, labels, foreign := flagCase(t, sc, mask, unknown, wire)
 		col.Case(fmt.Sprintf("%s/%d/%v", sc.Digest(), mask, unknown), nt, labels, func() any {
 			return map[string]any{"flags": flagsFromMask(mask, unknown), "script": sc.Pretty()}
 		})
